@@ -27,8 +27,10 @@ func Run(c *core.Ctx) int {
 	py := newPyPool(c.Root, c.Repo)
 	var rc Case
 	if c.ReplayCase(&rc) {
+		classifySchemas, _ = loadSchemaSet(c.Repo)
 		return replay(c, py, rc)
 	}
+	classifySchemas, _ = loadSchemaSet(c.Repo)
 	staticPart(c, py, "")
 
 	inputs, err := loadInputs(c.Repo)
@@ -255,6 +257,12 @@ func Run(c *core.Ctx) int {
 			sweep(e, "taxid-exempt:"+code, func(t any) bool { return setTaxIDCodesOf(t, "MX", code) > 0 })
 		}
 	}
+
+	// (3d) schema-guided sweep: every member the published schema constrains, present or not,
+	// with values the schema refuses (sweep.go)
+	schemaSweep(c, accepted, mut.pool, seen, addAccepted)
+	// (3e) signed envelopes, the signatures in every encoding the reader takes (signed.go)
+	signedEnvelopes(c, accepted, addAccepted)
 
 	// (4) model correspondence on the rejecting side: broken copies of valid outputs,
 	// judged by the Lean model and jsonschema only (GOBL has no say here)
@@ -688,12 +696,16 @@ func replay(c *core.Ctx, py *pyPool, rc Case) int {
 		env := []byte(rc.Envelope)
 		acceptedByGo := false
 		if len(rc.Input) > 0 {
-			out, stage, err := goAccept(rc.Input, rc.IsEnvelope)
+			accept := func() ([]byte, string, error) { return goAccept(rc.Input, rc.IsEnvelope) }
+			if rc.Signed {
+				accept = func() ([]byte, string, error) { return acceptSigned(rc.Input) }
+			}
+			out, stage, err := accept()
 			if err != nil {
 				c.Note("replay: GOBL no longer accepts the input (%s: %v); judging the recorded envelope for the model correspondence only", stage, err)
 			} else {
 				acceptedByGo = true
-				if !strings.HasSuffix(rc.Source, ".json") || strings.Contains(rc.Source, "re-marshalled") {
+				if !strings.HasSuffix(rc.Source, ".json") || strings.Contains(rc.Source, "re-marshalled") || rc.Signed {
 					env = out
 				}
 			}
